@@ -139,6 +139,27 @@ pub fn materialise(c: &Case) -> Mat {
             reads.push((s.clone(), q.clone()));
         }
     }
+    // k >= 33, --min-count >= 3, half of the cases: a k-mer S seen exactly min-count times and its relative T (S with
+    // the bases at positions i and i+32 exchanged) seen twice, in the order S T S..S T S: two k-mers are two counts
+    if k >= 33 && c.min_count >= 3 && (genome.len() + c.reads.len()) % 2 == 0 {
+        let mut x = genome.iter().fold(k as u64 + 77, |a, b| a.wrapping_mul(131).wrapping_add(*b as u64));
+        let mut sk: Vec<u8> = (0..k).map(|_| { x = crate::engine::splitmix64(x); model::BASES[(x >> 33) as usize & 3] }).collect();
+        let i = (x >> 7) as usize % (k - 32);
+        if sk[i] == sk[i + 32] {
+            sk[i + 32] = model::BASES[(model::BASES.iter().position(|b| *b == sk[i]).unwrap() + 1) % 4];
+        }
+        let mut tk = sk.clone();
+        tk.swap(i, i + 32);
+        let q = vec![33 + c.min_qual.clamp(30, 93); k];
+        let mc = c.min_count as usize;
+        let mut order: Vec<&Vec<u8>> = vec![&sk, &tk];
+        order.extend(std::iter::repeat(&sk).take(mc - 2));
+        order.push(&tk);
+        order.push(&sk);
+        for r in order {
+            reads.push((r.clone(), q.clone()));
+        }
+    }
     let n = reads.len();
     let split = 1 + gen::idx(c.split, n - 1);
     Mat { genome, reads, split }
@@ -325,7 +346,8 @@ fn check_cli(c: &Case, ctx: &Ctx) -> Outcome {
     }
     if variant & 2 == 2 {
         for f in [&mut f1, &mut f2] {
-            let gz = format!("{f}.gz");
+            // compressed files are recognised by their first bytes: the suffix is a convention (.gz, .gzip, .bgz, .GZ)
+            let gz = format!("{f}{}", [".gz", ".gzip", ".gz", ".bgz", ".GZ"][(c.k / 2 + c.min_count as usize + m.reads.len() / 3) % 5]);
             if m.reads.len() % 2 == 0 { cli::gzip(std::path::Path::new(f.as_str()), std::path::Path::new(&gz)) } else { cli::gzip_members(std::path::Path::new(f.as_str()), std::path::Path::new(&gz), 2) }
             *f = gz;
         }
